@@ -499,8 +499,10 @@ func (o *Outcome) CodecExact(h *History) int {
 					continue
 				}
 				got := f.Pix[(y*f.W+x)*4 : (y*f.W+x)*4+4]
-				if !f.BlendNone && want[3] != 0 && want[3] != 255 && got[3] == 0 {
-					continue // a kept pixel of a blended sub-frame, cleared by clearKeptPixels
+				if want[3] != 0 && want[3] != 255 && got[3] == 0 {
+					// a kept pixel cleared by clearKeptPixels (legitimate only in a blended sub-frame;
+					// whether the frame's blend mode is right is judged by the played pictures)
+					continue
 				}
 				if f.Lossy {
 					if f.HasALPH && got[3] != want[3] {
